@@ -30,7 +30,7 @@ CLAIMED = {
             "float()/IEEE scaling, strptime/timedelta of the first-point time and numpy timedelta arithmetic are contracts (evaluated exactly by the harness)", "7 C04"),
     "C12": ("Lean theorems image_group_numpy_typed (every image file that opens: each member of the image group is the lazy pixel array or a 1-d non-empty NumPy array of a real dtype with declared shape = element count; bridge_total + bridged_members_typed, NumPy dtype inference modelled and tied by H11) / documented_trees_well_typed / image_group_well_typed (any n) / metadata_well_typed + leader_trees_well_typed (the whole documented /metadata tree, any counts and designator class) / typing_is_shape_only, declared_shape (from pixel_fidelity), real_dtypes (re-read from source); oracle over dtype/shape/nbytes/repr/attribute types/selection shapes",
             "numpy's dtype inference of python lists is third-party", "7 C12"),
-    "C13": ("Lean theorems imagery_children (no image dropped or swapped when names are distinct), name_collision, group_names_injective, roles_independent_of_line_order (permutation invariance), metadata_children (for every leader file: /metadata has exactly the record groups present in the leader, map_projection iff the file holds such a record), product_tree (model of the whole io.open: every successful open is assembled from exactly the documented pieces - summary, root attributes, /metadata, one image group per image file in summary order), coordinates_promoted (name-level model of to_dataset / decode_coords, tied by correspondence), root_children; whole-product correspondence (intact and damaged products) against the real io.open; oracle over 1-8 images x polarisation x scan x summary line order, uncached and through a freshly created cache: node paths and order, per-group pixel identity with the right file, attributes",
+    "C13": ("Lean theorems product_factors / codec_view_is_product / codec_view_error (the whole-product model factors through its head and one open per image; the codec-view product of the cache-first model has the same root attributes, summary, /metadata and image names in the same order), group_name_has_no_slash (character-level capture soundness of the regex matcher), imagery_children (no image dropped or swapped when names are distinct), name_collision, group_names_injective, roles_independent_of_line_order (permutation invariance), metadata_children (for every leader file: /metadata has exactly the record groups present in the leader, map_projection iff the file holds such a record), product_tree (model of the whole io.open: every successful open is assembled from exactly the documented pieces - summary, root attributes, /metadata, one image group per image file in summary order), coordinates_promoted (name-level model of to_dataset / decode_coords, tied by correspondence), root_children; whole-product correspondence (intact and damaged products) against the real io.open; oracle over 1-8 images x polarisation x scan x summary line order, uncached and through a freshly created cache: node paths and order, per-group pixel identity with the right file, attributes",
             "DataTree.from_dict / set_coords are xarray's", "7 C13"),
     "C14": ("Lean theorems line_sound / line_complete (exact line grammar incl. lazy matching, values with = and quotes), errors_exact, crlf, perm_invariant on the regex regenerated from CPython's own AST; summary correspondence; whole-product oracle with permuted/CRLF/corrupted summaries",
             "the backtracking matcher model is tied to CPython's re by correspondence", "7 C14"),
@@ -44,7 +44,7 @@ CLAIMED = {
             "real schedules / GIL / lock implementation only enumerated at filesystem yield points", "7 C19"),
     "C20": ("Lean theorems blank_int/float/text, no_derived_attribute, padding_inert + padding_inert_leader_records (dataset summary, radiometric, facility-5, platform-position, map-projection records: records agreeing on live-field bytes give equal output), padding_inert_counted_records (attitude, data quality: only the count and the entries present matter; unused slots, trailing blanks, preamble are inert), padding_inert_volume_directory (file-pointer records are inert), live_fields_only(2), field_locality (13 fixed-size layouts), padding_inert_line_records (any number of line records of either kind) and padding_inert_image_file (whole image files through the layout-based reader, every records_per_chunk); oracle: nullable fields blanked individually and in subsets, padding rewritten with random content; byte influence map (changed output leaves per changed input byte vs the layout + provenance prediction; quick: sampled positions, thorough: every position of two products)",
             "bool(-1)=True for blank flag columns is exempt by the property's wording; the influence map is an oracle (a search), the theorems carry the universal claim", "7 C20"),
-    "C18": ("Lean theorems missing_files (whole-product model: summary error, then volume directory / leader / image files in order, first missing one is FileNotFoundError) / trailer_never_read / records_within_file / cut_file_never_complete (layout-based reader: returned records lie inside the file, a cut file never yields its declared number of records, for every records_per_chunk), truncated_image (addressing model, arbitrary bytes: short file => error or fewer than n records), complete_image, missing_summary; whole-product correspondence on damaged products (error classes of truncated / removed / corrupted files); truncation/missing-file oracle over every record boundary +-1 x rpc",
+    "C18": ("Lean theorems head_error_with_caches (no index file can make a product with a failing summary / volume directory / leader step open, and none is touched), missing_files (whole-product model: summary error, then volume directory / leader / image files in order, first missing one is FileNotFoundError) / trailer_never_read / records_within_file / cut_file_never_complete (layout-based reader: returned records lie inside the file, a cut file never yields its declared number of records, for every records_per_chunk), truncated_image (addressing model, arbitrary bytes: short file => error or fewer than n records), complete_image, missing_summary; whole-product correspondence on damaged products (error classes of truncated / removed / corrupted files); truncation/missing-file oracle over every record boundary +-1 x rpc",
             "xarray.Dataset's dimension check and promptness are not proved (measured)", "7 C18"),
 }
 
